@@ -2,3 +2,6 @@ import MongoModel.Value
 import MongoModel.Wire
 import MongoModel.Bson
 import MongoModel.Filter
+import MongoModel.Update
+import MongoModel.Store
+import MongoModel.Ops
